@@ -71,3 +71,7 @@ claim('C09', 'CBMC on the real process_io event dispatch with a NULL / sparse co
       'Solver-decided: a timer wake-up or a console completion arriving on a driver with no connection at all (table NULL), with an empty console slot or with a populated table is dispatched without memory errors, whatever the event bits and the outcome of the console reconnect.',
       'Only this slice of C09 is covered: user socket events, the backend loop and its error recovery site, process_user_command callbacks and remove_interactive are not yet encoded (the heart-beat error clause is decided under C11, call_out error branches under C10).',
       'DESIGN.md 5/C09')
+claim('C17', 'CBMC on the real load_binary staleness gate with a stub file system (symbolic mtimes, ids, names)',
+      'Solver-decided: the loader starts reading the program image only if the source and every listed include are not newer than the binary, the magic / driver id / configuration id match and the stored name matches; otherwise it returns out-of-date.',
+      'Only the gate of C17 is covered: inherited-program staleness, relocation and table re-sorting (locate_in, patch_in, sort_function_table) and equality with a fresh compile are not.',
+      'DESIGN.md 5/C17')
